@@ -156,6 +156,10 @@ func (x *Exec) collectLoopTargets(fr *Frame, st *State, li *loopInfo, names map[
 					continue
 				}
 				if strings.HasPrefix(funcKey(fn), "math/big.") {
+					switch fn.Name() {
+					case "Sign", "IsUint64", "IsInt64", "Cmp", "CmpAbs", "Uint64", "Int64", "String", "Text", "BitLen":
+						continue
+					}
 					lt.untargeted["BigVal"] = true
 					continue
 				}
